@@ -61,6 +61,7 @@ func Layer(r *ev.Run) {
 	r.RequireAtLeast("mysql_db_stream_marker_checks", 60)
 	r.RequireAtLeast("mysql_nonowner_reads_checked", 15)
 	r.RequireAtLeast("mysql_upsert_statements_checked", 15)
+	r.RequireAtLeast("mysql_values_with_percent_runs_written", 30)
 	r.RequireAtLeast("mysql_upserts_with_protected_values_and_unprotected_assignments", 5)
 }
 
@@ -462,6 +463,12 @@ func RunStep(r *ev.Run, w *World, ac, rc *proxyrig.MyClient, st proxyrig.MyStep,
 		c := t.Col(wr.Col)
 		k := wr.Table + "." + wr.Col
 		w.Written[k] = append(w.Written[k], wr)
+		if b := wr.V.Bytes(); bytes.HasPrefix(b, []byte("%")) || bytes.HasSuffix(b, []byte("%")) || bytes.Contains(b, []byte("w%")) || bytes.Contains(b, []byte("%w")) {
+			r.Count("mysql_values_with_percent_runs_written", 1)
+			if c != nil && c.Kind == "mask" {
+				r.Count("mysql_masked_values_with_percent_runs_at_the_window_written", 1)
+			}
+		}
 		m := wr.V.Marker()
 		if m == nil {
 			continue
